@@ -46,6 +46,8 @@ pub struct Report {
     pub tree_errors: Vec<String>,
     pub shape_fp: u64,
     pub locked_bins: usize,
+    /// per bin: (kind: 0 empty, 1 list, 2 tree, 3 moved, 4 corrupt; node count)
+    pub bins: Vec<(u8, usize)>,
 }
 
 /// Validates one tree bin. `strict_idle` additionally demands an idle lock word (quiescence).
@@ -188,11 +190,13 @@ fn walk_table<V: VidOf>(
     for (i, b) in t.bins.iter().enumerate() {
         let nodes: &[NodeDump<'_, Key, V>] = match b {
             BinDump::Empty => {
+                rep.bins.push((0, 0));
                 rep.bins_empty += 1;
                 fp.add(0);
                 continue;
             }
             BinDump::Moved => {
+                rep.bins.push((3, 0));
                 rep.bins_moved += 1;
                 fp.add(1);
                 if quiescent {
@@ -201,10 +205,12 @@ fn walk_table<V: VidOf>(
                 continue;
             }
             BinDump::Corrupt(e) => {
+                rep.bins.push((4, 0));
                 rep.wellformed_errors.push(format!("bin {}: {}", i, e));
                 continue;
             }
             BinDump::List { locked, nodes } => {
+                rep.bins.push((1, nodes.len()));
                 rep.bins_list += 1;
                 fp.add(0x100 + nodes.len() as u64);
                 rep.max_list_len = rep.max_list_len.max(nodes.len());
@@ -225,6 +231,7 @@ fn walk_table<V: VidOf>(
                 nodes,
                 ..
             } => {
+                rep.bins.push((2, nodes.len()));
                 rep.bins_tree += 1;
                 fp.add(0x10000 + nodes.len() as u64);
                 rep.tree_sizes.push(nodes.len());
@@ -310,9 +317,6 @@ pub fn report_of_dump<V: VidOf>(d: &Dump<'_, Key, V>, hash: HashKind, quiescent:
     if quiescent {
         if d.map_next_table != 0 {
             rep.wellformed_errors.push("next_table is set at quiescence (half-finished resize)".into());
-        }
-        if d.transfer_index > 0 {
-            rep.wellformed_errors.push(format!("transfer_index is {} at quiescence", d.transfer_index));
         }
         if d.size_ctl < 0 {
             rep.wellformed_errors.push(format!("size_ctl is {} (resizing/initialising) at quiescence", d.size_ctl));
